@@ -4,7 +4,7 @@ inside one oracle binary (DESIGN 3.5).
 A case is a dict:
   id      : short identifier (letters/digits)
   files   : {relative path inside the case dir: content}      (hand-written sources)
-  runs    : [ {"args": [...], "cwd": "rel dir (default .)", "env": {extra environment, e.g. GOFILE}} ]  shoot invocations, in order
+  runs    : [ {"args": [...], "cwd": "rel dir (default .)", "env": {extra environment, e.g. GOFILE}} | {"write": {rel: content}} (a source edit) ]  shoot invocations, in order
   oracle  : {"rel dir": go source of zz_oracle.go}  -- must define  func VerifObserve(emit func(string, string))
             (written AFTER the shoot runs, so shoot never analyses it)
 Results per case id:
@@ -78,6 +78,13 @@ class Batch:
         before = snapshot(d)
         runs = []
         for r in case.get("runs", []):
+            if "write" in r:
+                # a hand edit of the sources between two runs: {"write": {rel path: new content}}
+                for rel, content in r["write"].items():
+                    with open(os.path.join(d, rel), "w") as f:
+                        f.write(content)
+                before.update({rel: content for rel, content in r["write"].items()})
+                continue
             cwd = os.path.join(d, r.get("cwd", "."))
             try:
                 env = None
